@@ -33,7 +33,7 @@ Definition proj (x o : sx) : sx :=
   else if str_eqb fam (bytes "cfg") then proj_cfg o
   else if str_eqb fam (bytes "crash") then proj_crash x o
   else if str_eqb fam (bytes "reload") then proj_reload x o
-  else if str_eqb fam (bytes "coord") then proj_coord o
+  else if str_eqb fam (bytes "coord") then proj_coord x o
   else if str_eqb fam (bytes "aecache") then proj_aecache x o
   else o.
 
